@@ -98,7 +98,7 @@ def build(x):
         spec = G.conv_spec("conv_" + enum, enum, arms)
         fn.name_return("r")
         fn.add_spec("    ensures r@ == conv_%s(*self, *target, value@)," % enum)
-        fn.insert_after(r"\A[^{]*\{", "        broadcast use areal, lits; proof { areal_obeys(); }")
+        fn.body_start("        broadcast use areal, lits; proof { areal_obeys(); }")
         texts.append(fn.text)
         fns.append((enum, val, spec, fn.text))
     # numeric shims
@@ -128,7 +128,7 @@ def build(x):
         ff = x.fn(U + f, sel + " :: fn from")
         ff.name_return("r")
         ff.add_spec("    " + spec)
-        ff.insert_after(r"\A[^{]*\{", "        broadcast use areal; proof { areal_obeys(); }")
+        ff.body_start("        broadcast use areal; proof { areal_obeys(); }")
         hdr = sel + " {\n    "
         m = __import__("re").fullmatch(r"impl From<(.*)> for (\w+)", sel)
         fs = ("impl vstd::std_specs::convert::FromSpecImpl<%s> for %s {\n    open spec fn obeys_from_spec() -> bool { false }\n"
@@ -148,7 +148,7 @@ def build(x):
         r is Ok ==> r->Ok_0@ == conv_TimeUnit(TimeUnit::Seconds, *time_unit,
               conv_DistanceUnit(*distance_unit, DistanceUnit::Meters, distance@)
             / conv_SpeedUnit(*speed_unit, SpeedUnit::MetersPerSecond, speed@)),""")
-    ct.insert_after(r"\A[^{]*\{", "    broadcast use areal, lits; proof { areal_obeys(); }")
+    ct.body_start("    broadcast use areal, lits; proof { areal_obeys(); }")
     ct.rewrite(r"let time = \(d, s\)\.into\(\);", "let time = Time::from((d, s));", 1, 1)
     x.note("R-into", "create_time: `(d, s).into()` written as the `From` impl it resolves to, `Time::from((d, s))` (extracted verbatim above)")
     cs = x.fn(U + "builders.rs", "fn create_speed")
@@ -158,7 +158,7 @@ def build(x):
         r is Ok ==> r->Ok_0@ == conv_SpeedUnit(SpeedUnit::MetersPerSecond, *speed_unit,
               conv_DistanceUnit(*distance_unit, DistanceUnit::Meters, distance@)
             / conv_TimeUnit(*time_unit, TimeUnit::Seconds, time@)),""")
-    cs.insert_after(r"\A[^{]*\{", "    broadcast use areal, lits; proof { areal_obeys(); }")
+    cs.body_start("    broadcast use areal, lits; proof { areal_obeys(); }")
     cs.rewrite(r"let speed = \(d, t\)\.into\(\);", "let speed = Speed::from((d, t));", 1, 1)
     x.note("R-into", "create_speed: `(d, t).into()` written as `Speed::from((d, t))`")
     ce = x.fn(U + "builders.rs", "fn create_energy")
@@ -167,7 +167,7 @@ def build(x):
         r is Ok,
         r->Ok_0.1 == eru_energy(*energy_rate_unit),
         r->Ok_0.0@ == energy_rate@ * conv_DistanceUnit(*distance_unit, eru_distance(*energy_rate_unit), distance@),""")
-    ce.insert_after(r"\A[^{]*\{", "    broadcast use areal, lits; proof { areal_obeys(); }")
+    ce.body_start("    broadcast use areal, lits; proof { areal_obeys(); }")
     ce.rewrite(r"let energy = \(\*energy_rate, calc_distance\)\.into\(\);", "let energy = Energy::from((*energy_rate, calc_distance));", 1, 1)
     x.note("R-into", "create_energy: `(*energy_rate, calc_distance).into()` written as `Energy::from((..))`")
     texts += [ct.text, cs.text, ce.text]
